@@ -178,6 +178,16 @@ CHECKS = {
          "overlaps, no intersecting row may be lost and the bounds reported afterwards must be those of the kept partitions.",
          "Partitions with NaN recorded extent are don't-care for pruning.",
          "DESIGN.md section 3/C12"),
+ "C17": ("exploration", "E1",
+         "bounded exhaustive enumeration of inert-row placements; metamorphic comparison with / without the inert rows",
+         "For each of the 7 kinds: 3 valid elements with non-exact float coordinates and EVERY placement of 1..3 inert rows "
+         "(missing / empty / (NaN,NaN) points) in a final length <= 6, plus all-inert, single-inert and inert-at-both-ends "
+         "arrays; every operation named in the statement (bounds, total_bounds, measures, box and shape predicates, Hilbert "
+         "distance, R-tree queries and cx with page sizes 1,2,3,512 and without index, sjoin with the inert rows on the left or "
+         "the right, Dask total_bounds / cx for 1..3 partitions, pack_partitions, pack_partitions_to_parquet) must give the "
+         "valid rows exactly what it gives without the inert rows, and must never select / match an inert row.",
+         "Metamorphic relation, no oracle; pack_partitions raising is exempt.",
+         "DESIGN.md section 3/C17"),
 }
 
 NOT_YET = {}
